@@ -78,6 +78,9 @@ def _work(task):
     except Exception as e:
         out["error"] = traceback.format_exc()[-1500:]
     out["wall_s"] = time.time() - t0
+    if os.environ.get("VERIF_VERBOSE"):
+        sys.stderr.write("  [%6.1fs] %s %s\n" % (out["wall_s"], out["name"], str((out.get("summary") or {}).get("status", out.get("error", "")))[:80]))
+        sys.stderr.flush()
     return out
 
 
